@@ -28,7 +28,7 @@ impl RunReport {
     pub fn probe(&mut self, name: &str, n: u64) {
         merge_probe(&mut self.probes, name, n);
     }
-    pub fn fire(&mut self, fired: &BTreeMap<&'static str, u64>) {
+    pub fn fire(&mut self, fired: &BTreeMap<String, u64>) {
         for (k, v) in fired {
             *self.fired.entry(k.to_string()).or_insert(0) += *v;
         }
